@@ -357,3 +357,38 @@ func vh_C07_mod() {
 	}
 	vReach("mod")
 }
+
+// vh_C07_self: both operands are the same object (a value bound to a
+// variable and compared with itself, an array holding it compared with
+// itself): the comparison is the one of two equal values - in particular NaN
+// stays unequal to and unordered against itself.
+func vh_C07_self() {
+	env := NewZlispSandbox()
+	k := vChoice("kind", 4)
+	a := vNum(k, "a")
+	op := []string{"<", ">", "<=", ">=", "==", "!="}[vChoice("op", 6)]
+	want, ok := vRefCompare(op, a, a)
+	if !ok {
+		vDone()
+	}
+	env.AddGlobal("xv", a)
+	var form Sexp
+	inArray := vChoice("where", 2) == 1
+	if inArray {
+		env.AddGlobal("xa", &SexpArray{Val: []Sexp{&SexpInt{Val: 1}, a}, Env: env})
+		if op != "==" && op != "!=" {
+			vDone() // arrays are only compared for equality
+		}
+		form = vForm(env, op, env.MakeSymbol("xa"), env.MakeSymbol("xa"))
+	} else {
+		form = vForm(env, op, env.MakeSymbol("xv"), env.MakeSymbol("xv"))
+	}
+	res, err, panicked := vEval(env, form)
+	vAssert(!panicked && err == nil, "self-compare-evaluates")
+	if panicked || err != nil {
+		return
+	}
+	rb, isB := res.(*SexpBool)
+	vAssert(isB && rb.Val == want, "self-compare-matches-spec")
+	vReach("self")
+}
